@@ -10,12 +10,16 @@ for d in sorted(glob.glob(os.path.join(V, "seeded", "*", "meta.json"))):
     ok = all(c.get(k) for k in ("patch_applies", "compiles", "demo_passes_without_change", "demo_fails_with_change"))
     caught = {p: v["formulas"] for p, v in (m.get("checks") or {}).items() if v["rc"] == 1}
     own = m.get("property") in caught
-    rows.append((name, m.get("property"), ok, caught, own, (m.get("summary") or "")[:160].replace("\n", " "), (m.get("needs_to_manifest") or "")[:200].replace("\n", " ")))
+    rows.append((name, m.get("property"), ok, caught, own, (m.get("summary") or "")[:160].replace("\n", " "), (m.get("needs_to_manifest") or "")[:200].replace("\n", " "), m.get("note")))
 with open(os.path.join(V, "seeded", "README.md"), "w") as f:
     f.write("# Independently seeded changes and what catches them\n\nEach directory holds `patch.diff`, the demonstration test and `meta.json` (what the change needs in order to manifest, what was run).\n"
-            "The changes were written by sub-agents that saw only the property text and a scratch worktree of /repo; each was confirmed here (patch applies, compiles, demo passes without / fails with the change) before the quick checks were run against it.\n\n"
+            "Three rounds (seeds 1-3, 4-6, 7-9 of each property; later rounds were told what had been tried). The changes were written by sub-agents that saw only the property text and a scratch worktree of /repo; each was confirmed here (patch applies, compiles, demo passes without / fails with the change) before the quick checks were run against it.\n\n"
             "| seed | property | confirmed | caught by (quick tier) | own property check catches it | change | needs |\n|---|---|---|---|---|---|---|\n")
     for r in rows:
+        if r[7]:   # superseded by a repair in /repo: see the note
+            f.write("| %s | %s | %s | %s | %s | %s | %s |\n" % (r[0], r[1], "superseded", r[7].replace("|", "/"), "-", r[5], r[6]))
+            continue
         f.write("| %s | %s | %s | %s | %s | %s | %s |\n" % (r[0], r[1], "yes" if r[2] else "NO", "; ".join("%s: %s" % (p, ", ".join(v)) for p, v in r[3].items()) or "**missed**", "yes" if r[4] else "no", r[5], r[6]))
+rows = [r for r in rows if not r[7]]
 n = len(rows); c = sum(1 for r in rows if r[3]); o = sum(1 for r in rows if r[4])
 print("%d seeds, %d caught by some check, %d caught by the targeted property's check" % (n, c, o))
